@@ -210,9 +210,10 @@ class MergeEngine:
         )
 
         if o.offset != "/":
-            # wrap the results of new_cset to pass through an offset generator
-            o.cset_sources["old_cset"] = post_curry(
-                o.generate_offset_cset, o.cset_sources["old_cset"]
+            # wrap the pkg's contents to pass through an offset generator; the
+            # livefs intersection (old_cset) has to see the offset paths.
+            o.cset_sources["raw_old_cset"] = post_curry(
+                o.generate_offset_cset, o.cset_sources["raw_old_cset"]
             )
 
         o.old = pkg
